@@ -205,6 +205,8 @@ theorem strRepeat_spec (cs : List Char) (n : I64) :
         · have : byteLen cs = 0 := by omega
           simp [this]
       unfold goRepeat
-      simp [hfit]
+      cases cs with
+      | nil => simp [hfit]
+      | cons c cs => simp [hfit]
 
 end HmsProofs.Lemmas.Members
